@@ -102,12 +102,21 @@ Theorem C16_history_global : forall (gstate value req : Type) (draw : req -> gst
 Proof. exact history_global. Qed.
 Print Assumptions C16_history_global.
 
-(* every modelled entry point that accepts a random_state is global-free for an int seed and for a passed
-   generator object -- for ALL shapes, ranks, initialisations, SVD methods, masks, iteration counts *)
+(* every modelled entry point that accepts AND USES a random_state ([seedable]: everything except CP_PLSR, see the
+   next theorem, and parafac_power_iteration, which has no such argument) is global-free for an int seed and for a
+   passed generator object -- for ALL shapes, ranks, initialisations, SVD methods, masks, iteration counts *)
 Theorem C16_skeletons_global_free : forall (e : ep) (o : opts) (p : aparam),
   p = PInt \/ p = PLoc -> seedable e = true -> global_free (skeleton e o) p = true.
 Proof. exact skeleton_gf. Qed.
 Print Assumptions C16_skeletons_global_free.
+
+(* CP_PLSR accepts random_state but calls initialize_cp(Z, 1) without it (SVD init, truncated SVD): global-free for
+   EVERY kind of random_state -- nothing is ever drawn -- provided the contracted tensor has no empty mode (the
+   rank-1 padding branch `shape[mode] < rank`, which would draw from the GLOBAL generator, is then unreachable) *)
+Theorem C16_cp_plsr_global_free : forall (o : opts) (p : aparam),
+  forallb (Nat.leb 1) (tl (o_shape o)) = true -> global_free (skeleton E_cp_plsr o) p = true.
+Proof. exact gf_cp_plsr. Qed.
+Print Assumptions C16_cp_plsr_global_free.
 
 (* ------------------------------------------------------------------ the SEMANTIC criterion (no static analysis) *)
 
@@ -154,6 +163,25 @@ Theorem C16_global_draw_observable : forall (gstate value req : Type) (draw : re
       o_hist (fst (call gstate value req draw seed (idenv0 gstate) I sk a g')).
 Proof. exact global_draw_observable. Qed.
 Print Assumptions C16_global_draw_observable.
+
+(* a second static analysis, precise at joins (the rng variable may be bound in one branch only; a draw on an unset
+   rng raises, it does not reach the global generator): if it accepts a skeleton then, for random_state an int / a
+   generator object other than the global one / junk, every run returns the same outcome whatever the global state
+   and the interleaving, the global generator is untouched and never drawn from.  This is the analysis applied to
+   the skeletons that corr:C16-static extracts from the source. *)
+Theorem C16_join_precise_analysis : forall (gstate value req : Type) (draw : req -> gstate -> value * gstate) (seed : Z -> gstate)
+    (I : interp value req) (sk : skel) (a : rsarg gstate),
+  global_free_w sk = true -> safe_arg gstate a = true ->
+  (forall env env' g g', fst (call gstate value req draw seed env I sk a g) = fst (call gstate value req draw seed env' I sk a g')) /\
+  (forall g, snd (call gstate value req draw seed (fun _ x => x) I sk a g) = g) /\
+  (forall env g, ~ In GGlobal (o_srcs (fst (call gstate value req draw seed env I sk a g)))).
+Proof. exact gfw_reproducible. Qed.
+Print Assumptions C16_join_precise_analysis.
+
+(* it accepts everything the first analysis accepts (in particular every hand-written seedable skeleton) *)
+Theorem C16_join_precise_subsumes : forall sk : skel, global_free sk PInt = true -> global_free_w sk = true.
+Proof. exact global_free_gfw. Qed.
+Print Assumptions C16_join_precise_subsumes.
 
 (* histories, any kind of random_state: a call whose local semantics is defined on the caller's generator objects
    as they are at that moment ([state_at]) returns exactly that outcome *)
@@ -258,3 +286,26 @@ Example C16_eager_seed_resolution_refuted :
   nth_error (fst (fst (run_hist Z Z nat toy_draw toy_seed eager_h 0%Z []))) 1 <>
   nth_error (fst (fst (run_hist Z Z nat toy_draw toy_seed eager_h 0%Z []))) 3.
 Proof. split; [vm_compute; reflexivity | vm_compute; discriminate]. Qed.
+
+(* the hypothesis of C16_cp_plsr_global_free is needed IN THE MODEL (an empty mode makes the un-seeded padding draw
+   reachable; the implementation raises in the SVD of the empty unfolding before getting there) and satisfiable *)
+Example C16_cp_plsr_hypothesis :
+  global_free (skeleton E_cp_plsr {| o_shape := [8; 0; 4]; o_rank := 2; o_init := IRandom; o_svd := STruncated; o_mask := false;
+                                     o_nrep := 0; o_iters := 3; o_aux := 0 |}) PInt = false /\
+  forallb (Nat.leb 1) (tl (o_shape ex_opts)) = true /\
+  model_projection E_cp_plsr ex_opts (HInt 3%Z) = (true, false, false, false, false).
+Proof. repeat split; reflexivity. Qed.
+
+(* the join-precise analysis: accepts a generator bound in one branch only (the first analysis does not), rejects a
+   module-level draw in one branch, a callee that gets no random_state and draws, and a check on None *)
+Example C16_join_precise_examples :
+  global_free (Seq (Branch 0 Check Skip) (Draw 1)) PInt = false /\
+  global_free_w (Seq (Branch 0 Check Skip) (Draw 1)) = true /\
+  global_free_w (Seq Check (Branch 0 (Draw 1) (DrawNp 1))) = false /\
+  global_free_w (Seq Check (Call ANone (Seq Check (Draw 1)))) = false /\
+  global_free_w (Seq Check (Call ANone (Seq Check Skip))) = true /\
+  global_free_w (For 0 3 (Seq (Branch 0 Skip (Draw 1)) (Call ANone Check))) = true /\
+  global_free_w (Call ARaw (For 0 3 (Seq (Branch 0 Skip (Draw 1)) (Call ANone Check)))) = true /\
+  global_free_w (For 0 3 (Seq (Branch 0 Skip (Draw 1)) (Seq (Call ANone Check) (Call ARng (Seq Check (Draw 2)))))) = true /\
+  safe_arg Z (HInt 3%Z) = true /\ safe_arg Z (HInst 5%Z) = true /\ safe_arg Z HNone = false.
+Proof. repeat split; reflexivity. Qed.
